@@ -22,6 +22,7 @@ from ...peer import Peer
 from ...requestcache import RequestCache
 from ...taskmanager import task
 from ..interfaces.dispatcher.endpoint import DispatcherEndpoint
+from ..interfaces.endpoint import EndpointListener
 from .caches import CreatedRequestCache, CreateRequestCache, PingRequestCache, RetryRequestCache, TestRequestCache
 from .crypto import CryptoEndpoint, PythonCryptoEndpoint, TunnelCrypto
 from .endpoint import TunnelEndpoint
@@ -250,6 +251,13 @@ class TunnelCommunity(Community):
         """
         Remove all circuits/relays/exitsockets.
         """
+        # Stop listening first: a packet handled while unload() is pending could still set up state (an introduction
+        # point with its PexCommunity, a joined circuit) after the removals below have been collected.
+        self.endpoint.remove_listener(self)
+        crypto_endpoint = getattr(self, "crypto_endpoint", None)
+        if isinstance(crypto_endpoint, EndpointListener):
+            self.endpoint.remove_listener(crypto_endpoint)
+
         removals = [self.remove_circuit(circuit_id, "unload", remove_now=True, destroy=DESTROY_REASON_SHUTDOWN)
                     for circuit_id in list(self.circuits.keys())]
         removals += [self.remove_relay(circuit_id, "unload", remove_now=True, destroy=DESTROY_REASON_SHUTDOWN)
